@@ -487,8 +487,10 @@ func c08Vocabulary() []c08Construct {
 	return out
 }
 
-var c08VecPositions = []string{"%s", "abs(%s)", "sum(%s)", "sum by (a) (%s)", "%s + m1", "m1 * %s", "(%s)", "-%s", "%s > 1", "clamp_min(%s, 1)", "topk(1, %s)"}
-var c08ScalarPositions = []string{"%s", "clamp_min(m0, %s)", "topk(%s, m0)", "quantile(%s, m0)", "%s + m0", "m0 * %s", "(%s)", "-%s", "vector(%s)", "%s + 1"}
+var c08VecPositions = []string{"%s", "abs(%s)", "sum(%s)", "sum by (a) (%s)", "%s + m1", "m1 * %s", "(%s)", "-%s", "%s > 1", "clamp_min(%s, 1)", "topk(1, %s)",
+	"histogram_quantile(0.5, %s)", "vector(scalar(%s))", "quantile by (a) (0.5, %s)", "m1 + on(a) group_right %s"}
+var c08ScalarPositions = []string{"%s", "clamp_min(m0, %s)", "topk(%s, m0)", "quantile(%s, m0)", "%s + m0", "m0 * %s", "(%s)", "-%s", "vector(%s)", "%s + 1",
+	"histogram_quantile(%s, h_bucket)", "clamp(m0, %s, 10)", "m0 > bool %s"}
 var c08MatrixPositions = []string{"%s", "rate(%s)", "sum(max_over_time(%s))"}
 var c08StringPositions = []string{"%s", "(%s)"}
 
